@@ -25,7 +25,12 @@ def valid_file(rng, crc=None):
             body = rth_encode(*rand_plan(rng, False))
         else:
             body = [rng.randrange(32, 127) for _ in range(rng.randint(0, 12))]
+        if rng.random() < 0.08:
+            body = body[:rng.randint(0, 8)]              # shorter than the header of its kind
         blocks.append((ty, bytes(b & 255 for b in body)))
+    if blocks and rng.random() < 0.1:
+        # a record of type 0 ends the visible blocks: whatever follows it is not found, on either route
+        blocks.insert(rng.randrange(len(blocks)), (0, bytes(rng.randrange(256) for _ in range(rng.choice([0, 4])))))
     crc = rng.random() < 0.4 if crc is None else crc
     return skyb.container(blocks, version=2 if crc or rng.random() < 0.5 else 1, with_crc=crc)
 
